@@ -13,7 +13,7 @@ Import ListNotations.
 Definition par_design_case (signs : list bool) (v : fvec) (outs : list (outcome float))
            (cons : list (fvec * fvec)) (tape : list fvec) : job_case :=
   {| k_signs := signs; k_outs := outs; k_cons := cons; k_tape := tape;
-     k_ops := [OpMk (mk v [] None Empty false); OpEval [0%nat]] |}.
+     k_ops := [OpMk (mk v [] None Empty false 7); OpEval [0%nat]] |}.
 
 Definition c06_run : job_case -> job_obs := job_run.
 Definition c06_obs_eqb : job_obs -> job_obs -> bool := job_obs_eqb.
